@@ -36,6 +36,15 @@ def pOptFn : P OptFn := fun cs =>
     let rest ← expect ':' rest
     let (c, rest) ← pNat rest
     pure (.size f a b c, rest)
+  | 't' :: ':' :: rest => do
+    let (f, rest) ← pName rest
+    let rest ← expect ':' rest
+    let (a, rest) ← pNat rest
+    let rest ← expect ':' rest
+    let (b, rest) ← pNat rest
+    let rest ← expect ':' rest
+    let (c, rest) ← pNat rest
+    pure (.sizeSat f a b c, rest)
   | 'k' :: ':' :: rest => do
     let (f, rest) ← pName rest
     let rest ← expect ':' rest
